@@ -173,6 +173,9 @@ func (cl *Cluster) Abstract(r respx.Reply) AbsRep {
 // Concrete renders an abstract request for client c with request index i.
 func (cl *Cluster) Concrete(c string, i int, r AbsReq) []byte {
 	key := func(j int) string {
+		if j < len(r.Dups) && r.Dups[j] >= 0 && r.Dups[j] < j {
+			j = r.Dups[j] // the same key string as an earlier position
+		}
 		s := "A"
 		if j < len(r.Slots) {
 			s = r.Slots[j]
@@ -193,7 +196,11 @@ func (cl *Cluster) Concrete(c string, i int, r AbsReq) []byte {
 	case "mset":
 		a := []string{"MSET"}
 		for j := range r.Slots {
-			a = append(a, key(j), "w|"+c+"."+strconv.Itoa(i)+"."+strconv.Itoa(j))
+			vj := j
+			if j < len(r.Dups) && r.Dups[j] >= 0 && r.Dups[j] < j {
+				vj = r.Dups[j]
+			}
+			a = append(a, key(j), "w|"+c+"."+strconv.Itoa(i)+"."+strconv.Itoa(vj))
 		}
 		return respx.Cmd(a...)
 	case "ping":
